@@ -322,6 +322,52 @@ EXTRA_TEXT = [
 ]
 
 
+# ill-formed statement x what precedes it: the checker keeps state across statements and functions (scopes that are
+# never popped, the in-unsafe flag, the current function's return type, the loop depth); a construct that legitimately
+# changes that state must not let a LATER ill-formed statement through
+CTX_HEAD = ("extern fn srand(seed: int) -> void\nextern fn labs(x: int) -> int\n"
+            "struct CP { x: int }\nunion CU { A { v: int }, B { s: string } }\n")
+CONTEXTS = {
+    "none": "",
+    "unsafe-block": "    unsafe { (srand 2) }\n",
+    "unsafe-with-return": "    if false {\n        unsafe {\n            (srand 3)\n            return 9\n        }\n    } else {}\n",
+    "unsafe-nested-in-loop": "    for ui in (range 0 1) { unsafe { (srand ui) } }\n",
+    "nested-fn-same-param": "    fn helper(total: int) -> int { return (+ total 1) }\n    (println (helper 1))\n",
+    "nested-fn-other": "    fn helper2(q: int) -> int {\n        let mut total2: int = q\n        set total2 (+ total2 1)\n        return total2\n    }\n    (println (helper2 1))\n",
+    "shadowing-block": "    if true {\n        let mut total: int = 0\n        set total 5\n        (println total)\n    } else {}\n",
+    "loop-with-break": "    let mut li: int = 0\n    while (< li 3) { set li (+ li 1)  if (== li 2) { break } else {} }\n",
+    "match": "    let cu: CU = CU.A { v: 1 }\n    match cu {\n        A(m) => { (println m.v) }\n        B(m) => { (println m.s) }\n    }\n",
+    "void-call": "    (noop)\n",
+}
+ILL = {
+    "extern-outside-unsafe": ("extern call statement outside unsafe", "    (srand 1)\n"),
+    "immutable-set": ("set on an immutable let", "    set total 7\n"),
+    "unknown-name": ("use of an undefined variable", "    (println nowhere)\n"),
+    "let-type": ("let with a value of another type", "    let wrong: int = \"s\"\n    (println wrong)\n"),
+    "break-outside-loop": ("break outside a loop", "    break\n"),
+    "return-type": ("return of another type", "    if false { return \"s\" } else {}\n"),
+    "condition-type": ("non-bool condition", "    if total { (println 1) } else {}\n"),
+}
+
+
+def context_product():
+    for cn, ctx in CONTEXTS.items():
+        for rule, (desc, stmt) in ILL.items():
+            for where in ("same-function", "earlier-function"):
+                if where == "same-function":
+                    body = "    let total: int = 4\n" + ctx + '    (println "SENTINEL")\n' + stmt + "    return total\n"
+                    src = CTX_HEAD + "fn noop() -> void { (println 0) }\nshadow noop { assert true }\nfn main() -> int {\n" + body + "}\nshadow main { assert true }\n"
+                else:
+                    first = "fn first() -> int {\n    let total: int = 4\n" + ctx + "    return total\n}\nshadow first { assert true }\n"
+                    body = "    let total: int = (first)\n" + '    (println "SENTINEL")\n' + stmt + "    return total\n"
+                    src = CTX_HEAD + "fn noop() -> void { (println 0) }\nshadow noop { assert true }\n" + first + "fn main() -> int {\n" + body + "}\nshadow main { assert true }\n"
+                yield rule, "%s after [%s] in the %s" % (desc, cn, where), src
+    # the contexts themselves (no ill-formed statement) must be accepted, otherwise the product proves nothing
+    for cn, ctx in CONTEXTS.items():
+        body = "    let total: int = 4\n" + ctx + '    (println "SENTINEL")\n    return 0\n'
+        yield "seed", "context [%s] alone" % cn, CTX_HEAD + "fn noop() -> void { (println 0) }\nshadow noop { assert true }\nfn main() -> int {\n" + body + "}\nshadow main { assert true }\n"
+
+
 def _tools(args):
     root, work, envx, idx, src = args
     d = os.path.join(work, "t%d" % idx)
@@ -357,6 +403,8 @@ def run(tier):
             muts.append((rule, desc, pr.program(p2), False))
     for rule, desc, text in EXTRA_TEXT:
         muts.append((rule, desc, text, False))
+    for rule, desc, text in context_product():
+        muts.append((rule, desc, text, rule == "seed"))
     rec = os.path.join(work, "muts.bin")
     with open(rec, "wb") as f:
         for m in muts:
@@ -379,14 +427,19 @@ def run(tier):
     jobs = [(tree.root, work, lang.envx, i, muts[i][2]) for i in sel]
     by_rule = {}
     accepted_by_checker = 0
+    seeds_refused = []
     for r in common.pimap(_tools, jobs):
         i = r["idx"]
         rule, desc, text, is_seed = muts[i]
         rep.count("transitions", 3)
         if is_seed:
-            for tool in ("nanoc -o", "nano_virt --run", "nano_virt --emit-nvm -o"):
-                if r[tool]["rc"] != 0:
-                    raise common.HarnessError("seed %s is not accepted by %s: %s" % (desc, tool, r[tool]["err"]))
+            bad_tools = [tool for tool in ("nanoc -o", "nano_virt --run", "nano_virt --emit-nvm -o") if r[tool]["rc"] != 0]
+            if bad_tools and "nested-fn" in desc and bad_tools == ["nanoc -o"]:
+                continue      # nested functions do not compile natively (C04's open finding); the bytecode tools judge these contexts
+            if bad_tools:
+                # a valid seed that is refused is not this property's violation (C02 / C04 judge it); its mutants are
+                # vacuously rejected, so it must not go unnoticed either
+                seeds_refused.append("%s is not accepted by %s: %s" % (desc, bad_tools[0], r[bad_tools[0]]["err"][-300:]))
             continue
         if verd[i] == "A":
             accepted_by_checker += 1
@@ -425,6 +478,10 @@ def run(tier):
     rep.assumptions += ["every mutant violates its rule by construction (type-directed operators over well-typed seeds)",
                         "extern calls inside expressions without 'unsafe' are not judged: the specification's own section 6.4 example does exactly that",
                         "resource (affine) types are not in the core-language seeds"]
+    rep.coverage["seeds_refused"] = len(seeds_refused)
+    if seeds_refused and not rep.violations:
+        # nothing else was found, and part of the enumeration was vacuous: that is a machinery problem, not a verdict
+        raise common.HarnessError("seed " + seeds_refused[0])
     if len(muts) < 300:
         raise common.HarnessError("vacuous C05")
     return rep.finish()
